@@ -34,6 +34,24 @@ func addrs(ns string) (jid.JID, jid.JID) {
 	return LocalJID, RemoteJID
 }
 
+// Unbalanced reports whether the tokens one handler writes leave an element open or contain an
+// end tag without a start tag.
+func Unbalanced(ts []xml.Token) bool {
+	d := 0
+	for _, t := range ts {
+		switch t.(type) {
+		case xml.StartElement:
+			d++
+		case xml.EndElement:
+			if d == 0 {
+				return true
+			}
+			d--
+		}
+	}
+	return d != 0
+}
+
 // ---- spec-level oracle on the token list ---------------------------------------
 
 func isWS(s string) bool { return strings.Trim(s, " \t\r\n") == "" }
@@ -178,8 +196,16 @@ func (c *ctx) checkX(closed0 bool, ns string, body []byte, progs []Prog, class s
 	local, remote := addrs(ns)
 	toks := Tokens(ns, body)
 	anyClose := closed0
+	partial := false
 	for _, p := range progs {
-		anyClose = anyClose || p.Close
+		anyClose = anyClose || p.Close || p.Deadline != ""
+		var w []xml.Token
+		for _, o := range p.Ops {
+			w = append(w, o.Write...)
+		}
+		if Unbalanced(w) {
+			anyClose, partial = true, true
+		}
 	}
 	var before func(s *xmpp.Session, out *common.SafeBuffer) func()
 	if closed0 {
@@ -210,24 +236,50 @@ func (c *ctx) checkX(closed0 bool, ns string, body []byte, progs []Prog, class s
 	r.Case(line, true, class+"/"+ex.end)
 
 	fail := func(clause, key, detail string) { r.Fail(clause, key, lines, detail) }
-	if werr != nil {
+	if werr != nil && !partial {
 		fail("output-wellformed", "output", werr.Error())
 	}
-	// one invocation per top-level element, in order, none after the stream-level construct
-	handlerStopped := -1
-	for k := range res.Invs {
-		if k < len(progs) && progs[k].Ret != "ok" {
-			handlerStopped = k
-			break
-		}
-	}
+	// one invocation per top-level element, in order, none after the stream-level construct;
+	// a single pass over the elements with the state of the session: output open / left inside
+	// an element by a partial write / closed, close deadline passed
 	wantN := len(ex.elems)
 	wantEnd := ex.end
-	// a get/set IQ whose from does not parse cannot be answered: the session ends with the
-	// parse error (the handlers of this runner never write a reply)
+	st := "open"
+	if closed0 {
+		st = "closed"
+	}
+	expired := false
 	for k, e := range ex.elems {
+		if expired {
+			wantN, wantEnd = k, "deadline"
+			break
+		}
+		p := Prog{Ret: "ok"}
+		if k < len(progs) {
+			p = progs[k]
+		}
+		if p.Close {
+			st = "closed"
+		}
+		if p.Deadline == "past" {
+			expired = true
+		}
+		if p.Ret != "ok" {
+			wantN, wantEnd = k+1, "handler"
+			if p.Ret == "streamerr" || p.Ret == "wrapstream" {
+				wantEnd = "se"
+			}
+			break
+		}
+		var w []xml.Token
+		for _, o := range p.Ops {
+			w = append(w, o.Write...)
+		}
 		typ := attrVal(e.start.Attr, "type")
-		if e.start.Name.Local == "iq" && (e.start.Name.Space == NSClient || e.start.Name.Space == NSServer) && (typ == "get" || typ == "set") {
+		needs := e.start.Name.Local == "iq" && (e.start.Name.Space == NSClient || e.start.Name.Space == NSServer) && (typ == "get" || typ == "set")
+		if needs {
+			// a get/set IQ whose from does not parse cannot be answered: the session ends with
+			// the parse error (the handlers of this runner never write a reply)
 			if f := attrVal(e.start.Attr, "from"); f != "" && !(f == res.LocalBare && e.start.Name.Space == ns) {
 				if _, err := jid.Parse(f); err != nil {
 					wantN, wantEnd = k+1, "bad-jid"
@@ -235,45 +287,27 @@ func (c *ctx) checkX(closed0 bool, ns string, body []byte, progs []Prog, class s
 				}
 			}
 		}
-	}
-	// once the output is closed a write ends the session with the output-closed error: a
-	// handler's own write, or the automatic reply to an unanswered get/set
-	isClosed := closed0
-	for k, e := range ex.elems {
-		if k >= wantN {
-			break
-		}
-		var p Prog
-		if k < len(progs) {
-			p = progs[k]
-		} else {
-			p.Ret = "ok"
-		}
-		isClosed = isClosed || p.Close
-		if !isClosed || p.Ret != "ok" {
-			continue
-		}
-		nw := 0
-		for _, o := range p.Ops {
-			nw += len(o.Write)
-		}
-		typ := attrVal(e.start.Attr, "type")
-		needs := e.start.Name.Local == "iq" && (e.start.Name.Space == NSClient || e.start.Name.Space == NSServer) && (typ == "get" || typ == "set")
-		if needs {
-			if f := attrVal(e.start.Attr, "from"); f != "" && !(f == res.LocalBare && e.start.Name.Space == ns) {
-				if _, err := jid.Parse(f); err != nil {
-					break // bad-jid, set above
-				}
-			}
-		}
-		if needs || nw > 0 {
+		// once the output is closed a write ends the session with the output-closed error (a
+		// handler's own write, or the automatic reply to an unanswered get/set); once it was
+		// left inside an element the automatic reply ends it with the output-broken error
+		if st == "closed" && (needs || len(w) > 0) {
 			wantN, wantEnd = k+1, "output-closed"
 			break
 		}
+		if st == "broken" && needs {
+			wantN, wantEnd = k+1, "output-broken"
+			break
+		}
+		if st == "open" && Unbalanced(w) {
+			st = "broken"
+		}
+		if e.dirty != "" {
+			break // the element itself ends the session (ex.end)
+		}
 	}
-	if handlerStopped >= 0 && handlerStopped < wantN {
-		wantN = handlerStopped + 1
-		wantEnd = "handler"
+	if expired && wantN == len(ex.elems) && wantEnd == ex.end && (len(ex.elems) == 0 || ex.elems[len(ex.elems)-1].dirty == "") {
+		// the deadline is noticed before whatever follows the last element is looked at
+		wantEnd = "deadline"
 	}
 	if len(res.Invs) != wantN {
 		fail("one-per-element", "count", fmt.Sprintf("%d invocations, want %d", len(res.Invs), wantN))
@@ -814,6 +848,68 @@ func Run(r *common.Run) error {
 	c.checkX(true, NSServer, []byte(ordinary[3]+ordinary[0]+"</stream:stream>"), nil, "closed-before")
 	c.checkX(false, NSClient, []byte(ordinary[0]+ordinary[0]+"<!--c--></stream:stream>"), []Prog{{Ret: "ok", Close: true, Ops: []Op{{Write: wMessage("w")}}}}, "closed-in-handler")
 
+	// SetCloseDeadline between elements: a time in the future changes nothing (one invocation
+	// per element, nil on the peer's close), a time in the past ends Serve with the deadline
+	// error before the next element
+	for _, dl := range []string{"future", "past"} {
+		for cnt := 1; cnt <= 3; cnt++ {
+			for at := 0; at < cnt; at++ {
+				for _, tail := range []string{"</stream:stream>", "<!--c--></stream:stream>", " </stream:stream>", ""} {
+					body := ""
+					for k := 0; k < cnt; k++ {
+						body += ordinary[(k+at)%len(ordinary)]
+					}
+					ps := make([]Prog, cnt)
+					for k := range ps {
+						ps[k] = progReads(k%3, "ok")
+					}
+					ps[at].Deadline = dl
+					c.checkX(false, NSClient, []byte(body+tail), ps, "deadline-"+dl)
+				}
+			}
+		}
+	}
+	c.checkX(false, NSServer, []byte(ordinary[0]+ordinary[3]+ordinary[0]+"</stream:stream>"), []Prog{{Ret: "ok", Deadline: "future"}, {Ret: "ok", Deadline: "future"}}, "deadline-future")
+
+	// partial writes: a handler leaves an element open (start tag only, start tag and text,
+	// two start tags and one end tag) or writes an end tag nothing was open for; then every way
+	// the stream can end, and elements that need or attempt another write
+	pst := xml.StartElement{Name: name("message"), Attr: []xml.Attr{{Name: name("id"), Value: "part"}}}
+	pin := xml.StartElement{Name: name("body")}
+	partials := [][]xml.Token{
+		{pst},
+		{pst, xml.CharData("half")},
+		{pst, pin, xml.CharData("x"), pin.End()},
+		{pst, pin},
+		{xml.EndElement{Name: name("stray")}},
+	}
+	endings := []string{
+		"</stream:stream>", "", " </stream:stream>",
+		`<stream:error><host-gone xmlns="urn:ietf:params:xml:ns:xmpp-streams"/></stream:error>`,
+		"<!--c--></stream:stream>", "<?pi x?>", "junk", "<stream:features/>",
+		`<stream:stream xmlns="jabber:client" xmlns:stream="http://etherx.jabber.org/streams">`,
+		ordinary[3] + "</stream:stream>",
+		ordinary[0] + "</stream:stream>",
+		`<message id="d"><!--c--></message>`,
+	}
+	for pi, pw := range partials {
+		for _, end := range endings {
+			for pre := 0; pre <= 1; pre++ {
+				body := ""
+				var ps []Prog
+				for k := 0; k < pre; k++ {
+					body += ordinary[k]
+					ps = append(ps, progReads(1, "ok"))
+				}
+				body += ordinary[(pi+pre)%3]
+				ps = append(ps, Prog{Ret: "ok", Ops: []Op{{Read: true}, {Write: pw}}})
+				// the handler of a later element tries to write a whole message
+				ps = append(ps, Prog{Ret: "ok", Ops: []Op{{Write: wMessage("late")}}})
+				c.checkX(false, NSClient, []byte(body+end), ps, "partial-write")
+			}
+		}
+	}
+
 	// random
 	rnd := r.Rnd
 	n := r.Pick(2500, 40000)
@@ -827,6 +923,13 @@ func Run(r *common.Run) error {
 			body = strings.ReplaceAll(body, `"me@example.com"`, `"example.com"`)
 		}
 		ps := genProgs(rnd, 5)
+		if rnd.Chance(1, 10) && len(ps) > 0 {
+			ps[rnd.Intn(len(ps))].Deadline = []string{"future", "future", "past"}[rnd.Intn(3)]
+		}
+		if rnd.Chance(1, 10) && len(ps) > 0 {
+			k := rnd.Intn(len(ps))
+			ps[k].Ops = append(ps[k].Ops, Op{Write: partials[rnd.Intn(len(partials))]})
+		}
 		if rnd.Chance(1, 8) && len(ps) > 0 {
 			ps[rnd.Intn(len(ps))].Close = true
 			// a handler cannot close after it wrote (it holds the output lock): Close comes first
